@@ -730,7 +730,7 @@ class C08(Check):
             elif rng.random() < 0.3:
                 labels = rng.sample([0, 7, 2 ** 40, 2 ** 63, 12345678901, 3, 999], N)
             recs, L = gen.records(rng, N=N, wt=wt, labels=labels, maxw=4, ensure_two=False,
-                                  heavy=(True if rng.random() < 0.15 else None))
+                                  heavy=("wide" if rng.random() < 0.03 else True if rng.random() < 0.15 else None))
             cid = "r%d" % n
             cases.append(gen.case_net(cid, directed, lt, recs, L, wt))
             meta[cid] = (directed, lt, wt, recs, L)
